@@ -18,6 +18,11 @@ import (
 // EnforceUTF8 reports whether to enforce strict UTF-8 validation.
 func EnforceUTF8(fd protoreflect.FieldDescriptor) bool {
 	if flags.ProtoLegacy || fd.Syntax() == protoreflect.Editions {
+		// Extension fields reach the codecs as ExtensionTypeDescriptors, which
+		// wrap the declaring descriptor and hide its non-interface methods.
+		if xtd, ok := fd.(protoreflect.ExtensionTypeDescriptor); ok {
+			fd = xtd.Descriptor()
+		}
 		if fd, ok := fd.(interface{ EnforceUTF8() bool }); ok {
 			return fd.EnforceUTF8()
 		}
